@@ -346,6 +346,25 @@ result_type parse_url_impl(std::string_view user_input,
 
   const uint32_t max_input_length = ada::get_max_input_length();
 
+  // Normalization (percent-encoding, IDNA, etc.) can expand the URL beyond the
+  // original input size: every successful exit must check the resulting
+  // (normalized) URL size against the maximum input length.
+  auto enforce_max_length = [&url, max_input_length]() {
+    if constexpr (store_values) {
+      if (url.is_valid) {
+        if constexpr (result_type_is_ada_url_aggregator) {
+          if (url.buffer.size() > max_input_length) {
+            url.is_valid = false;
+          }
+        } else {
+          if (url.get_href_size() > max_input_length) {
+            url.is_valid = false;
+          }
+        }
+      }
+    }
+  };
+
   // We refuse to parse URL strings that exceed the maximum input length.
   // By default, this is 4GB but can be configured via
   // ada::set_max_input_length().
@@ -563,6 +582,7 @@ result_type parse_url_impl(std::string_view user_input,
           }
           url.update_unencoded_base_hash(*fragment);
           ADA_VERIF_COUNT(C_PARSE_EXIT_EARLY);
+          enforce_max_length();
           return url;
         }
         // Otherwise, if base's scheme is not "file", set state to relative
@@ -699,6 +719,7 @@ result_type parse_url_impl(std::string_view user_input,
               }
             }
             ADA_VERIF_COUNT(C_PARSE_EXIT_EARLY);
+            enforce_max_length();
             return url;
           }
           input_position = end_of_authority + 1;
@@ -915,6 +936,7 @@ result_type parse_url_impl(std::string_view user_input,
           }
         }
         ADA_VERIF_COUNT(C_PARSE_EXIT_EARLY);
+        enforce_max_length();
         return url;
       }
       case state::HOST: {
@@ -1046,6 +1068,7 @@ result_type parse_url_impl(std::string_view user_input,
               }
             }
             ADA_VERIF_COUNT(C_PARSE_EXIT_EARLY);
+            enforce_max_length();
             return url;
           }
           // If c is neither U+002F (/) nor U+005C (\), then decrease pointer
@@ -1302,22 +1325,7 @@ result_type parse_url_impl(std::string_view user_input,
       url.update_unencoded_base_hash(*fragment);
     }
   }
-  // Check the resulting (normalized) URL size against the maximum input length.
-  // Normalization (percent-encoding, IDNA, etc.) can expand the URL beyond the
-  // original input size.
-  if constexpr (store_values) {
-    if (url.is_valid) {
-      if constexpr (result_type_is_ada_url_aggregator) {
-        if (url.buffer.size() > max_input_length) {
-          url.is_valid = false;
-        }
-      } else {
-        if (url.get_href_size() > max_input_length) {
-          url.is_valid = false;
-        }
-      }
-    }
-  }
+  enforce_max_length();
   ADA_VERIF_COUNT(C_PARSE_EXIT_END);
   return url;
 }
